@@ -55,6 +55,8 @@ def make_dist(kind, n, seed, arg=None):
         N[j] = 10 ** r.uniform(0.5, 20)
     elif kind == 'isolated_at':
         N[min(int(arg[0]), n - 1)] = float(arg[1])
+    elif kind == 'given':
+        N[:min(n, len(arg))] = np.asarray(arg, dtype=float)[:n]
     elif kind in ('bump', 'lowbump', 'lastfull'):
         mu = r.uniform(0.05, 0.95) * n if kind != 'lowbump' else r.uniform(0.0, 0.2) * n
         sd = max(0.6, r.uniform(0.02, 0.2) * n) if kind != 'lowbump' else max(0.5, r.uniform(0.01, 0.06) * n)
@@ -73,6 +75,19 @@ def make_dist(kind, n, seed, arg=None):
         N[:] = 1.0
     elif kind == 'neg':
         N = r.normal(0, 10, n)
+    elif kind in ('interior', 'interior-sparse'):
+        # populated only in the interior: an EXACTLY empty margin of m classes at both ends, so that a grid translated by
+        # less than m classes still covers the populated range (dense: populations >> 1 everywhere inside; sparse: gaps)
+        m = int(arg) if arg is not None else int(r.integers(1, 6))
+        m = max(0, min(m, (n - 1) // 2))
+        k = n - 2 * m
+        if kind == 'interior':
+            mu = m + r.uniform(0.2, 0.8) * k; sd = max(0.8, r.uniform(0.08, 0.4) * k)
+            core = 10 ** r.uniform(3, 20) * np.maximum(np.exp(-0.5 * ((np.arange(n) - mu) / sd) ** 2), 1e-2)
+        else:
+            core = np.where(r.random(n) < 0.45, 10 ** r.uniform(-1, 18, n), 0.0)
+            core[m + int(r.integers(0, k))] = 10 ** r.uniform(0.5, 18)
+        N[m:n - m] = core[m:n - m]
     elif kind == 'undershoot':
         # a physical bump with a few classes driven below zero (tiny round-off sized and large undershoots)
         mu = r.uniform(0.05, 0.95) * n; sd = max(0.6, r.uniform(0.02, 0.2) * n)
@@ -146,6 +161,8 @@ def gen_recipe(rng, stream):
         return ['adjust', cd]
     if c == 'add':
         return ['add', rng.choice([0, 1, 1, 2, 3, 5, 10, 37])]
+    if c == 'change' and stream != 'malformed' and rng.random() < 0.2:
+        return gen_changesw(rng)
     if c == 'change':
         bad = stream == 'malformed' and rng.random() < 0.2
         return ['change', rng.choice(['same', 'same', 'scale', 'zero'] if not bad else ['zero', 'neg']),
@@ -165,7 +182,19 @@ def gen_recipe(rng, stream):
     return [c]
 
 
-GRID_CHANGING = ('add', 'change', 'adjust', 'revert', 'reset', 'setrec', 'loadrec')
+SW_MODES = ['shift', 'shift', 'shift', 'shiftbins', 'rebin', 'rebin']
+
+
+def gen_changesw(rng):
+    """re-mesh to a grid of EXACTLY the old class width that is translated: `shift` = changeSizeClasses(min+d, max+d) with bins left
+    at its default, `shiftbins` = the same with the current class count passed explicitly, `rebin` = another class count with
+    max = min + d + count * width.  d = frac classes: a fraction 0.1..0.9 of a class, whole classes, negative shifts."""
+    frac = rng.choice([0.5, 0.5, rng.uniform(0.1, 0.9), rng.uniform(0.1, 0.9), rng.uniform(0.1, 0.9), -rng.uniform(0.1, 0.9), -0.5,
+                       1.0, 2.0, -1.0, rng.uniform(1.0, 3.0), -rng.uniform(1.0, 3.0), 1e-3])
+    return ['changesw', rng.choice(SW_MODES), frac, rng.getrandbits(32)]
+
+
+GRID_CHANGING = ('add', 'changesw', 'change', 'adjust', 'revert', 'reset', 'setrec', 'loadrec')
 
 
 def interleave_moments(rng, recipes):
@@ -218,6 +247,15 @@ FIXED_CASES = [
       ['setrec', 'between', 4], ['setrec', 'exact', 9]], 'record-restore-one-class-from-0'),
     (dict(cMin=1e-10, cMax=1e-9, bins=1, minBins=1, maxBins=6),
      [['enablerec'], ['update', 'uniform', 3], ['setrec', 'after', 1], ['setrec', 'mid', 3]], 'record-restore-one-class'),
+    # re-mesh to a grid of the SAME class width, translated by a fraction of a class / whole classes / backwards, other class count
+    (dict(cMin=1e-10, cMax=2e-9, bins=190, minBins=100, maxBins=300),
+     [['setpsd', 'interior', 5, 12], ['mom', 3, 1], ['changesw', 'shift', 0.5, 1], ['mom', 3, 2]], 'same-width-half-class-dense'),
+    (dict(cMin=1e-10, cMax=2e-9, bins=40, minBins=20, maxBins=80),
+     [['setpsd', 'interior-sparse', 6, 5], ['changesw', 'shiftbins', -0.3, 2], ['setpsd', 'interior', 7, 6], ['changesw', 'rebin', 0.25, 3],
+      ['setpsd', 'interior', 8, 6], ['changesw', 'shift', 2.0, 4]], 'same-width-sparse-back-rebin-whole'),
+    # the Lean witness skipRescale_changes_M3: classes [2,4], [4,6] of the grid 0,2,..,8 populated, re-mesh to 1,3,..,11
+    (dict(cMin=0.0, cMax=8.0, bins=4, minBins=1, maxBins=8),
+     [['setpsd', 'given', 0, [0.0, 3.0, 5.0, 0.0]], ['changesw', 'rebin', 0.5, 11, 5], ['mom', 3, 3]], 'same-width-two-classes-half-shift'),
 ]
 
 
@@ -321,6 +359,23 @@ def materialise(p, rc):
         else:
             bins = {'half': max(1, n // 2), 'double': min(500, max(1, 2 * n)), 'third': max(1, int(n / 2.24)), 'rand': r.randint(2, 120)}[binsm]
         return ('change', float(cMin), float(cMax), bins, bool(resetPSD))
+    if t == 'changesw':
+        mode, frac, seed = rc[1], rc[2], rc[3]
+        r = random.Random(seed)
+        pmin, pmax = float(p.min), float(p.max)
+        w = (pmax - pmin) / max(n, 1)
+        nn = n if mode != 'rebin' else max(1, n + r.choice([-3, -2, -1, 1, 2, 3, 5, n]))
+        if mode == 'rebin' and len(rc) > 4:
+            nn = int(rc[4])
+        d = frac * w
+
+        def keeps_width(d_):      # max(10 cMin, cMax) must not take over, cMin must stay a radius
+            return pmin + d_ >= 0 and (pmin + d_) + nn * w >= 10 * (pmin + d_)
+        if not keeps_width(d) and keeps_width(-d):
+            d = -d
+        cMin = pmin + d
+        cMax = pmax + d if mode != 'rebin' else cMin + nn * w
+        return ('change', float(cMin), float(cMax), None if mode == 'shift' else nn, False)
     if t == 'mom':
         r = np.random.default_rng(rc[2])
         return ('mom', int(rc[1]), 10 ** r.uniform(-2, 20, n) * (r.random(n) < 0.8), r.uniform(0.1, 3.0, n))
@@ -828,14 +883,28 @@ def run_impl(init, recipes, res=None):
                 old_psd = np.append(old_psd, np.zeros(k))
             idx = np.nonzero(old_psd > 0)[0]
             covers = len(idx) > 0 and old_bounds[idx.min()] >= post['min'] and old_bounds[idx.max() + 1] <= post['max']
+            # class of the re-mesh: same class width as before (rtol 1e-9)?  translated by a non-integer number of classes?
+            w_old = float(old_bounds[1] - old_bounds[0]); w_new = float(post['bounds'][1] - post['bounds'][0])
+            same_width = close(w_old, w_new, 1e-9)
+            off = (post['min'] - float(old_bounds[0])) / w_old
+            swclass = '' if not same_width else (':same-width-shifted' if abs(off - round(off)) > 1e-6 else ':same-width-aligned')
             if res is not None:
-                res.count('remesh:' + ('covering' if covers else 'not-covering' if len(idx) else 'empty'))
+                res.count('remesh:' + ('covering' if covers else 'not-covering' if len(idx) else 'empty') + swclass)
+                if covers and swclass and len(idx) > 0:
+                    res.count('remesh%s:%s' % (swclass, 'dense' if len(idx) == idx.max() - idx.min() + 1 else 'sparse'))
+            if covers and swclass:
+                steps[-1]['sw'] = dict(prev=prev, old_psd=old_psd, old_bounds=old_bounds, m3a=m3a, m3b=m3b, w_old=w_old, w_new=w_new,
+                                       ext=len(old_psd) - len(prev['psd']))
             if covers and not close(m3a, m3b, 1e-9):
                 if m3b == 0 and not centre_in_support(old_psd, old_bounds, post['size']):
                     violate(KEY_VANISH, 're-mesh to a grid covering the populated range deleted every particle: no new class centre lies inside the support of the interpolated density (isolated populated classes, new spacing > 2x old)',
                             m3b, m3a, at=at)
                 else:
-                    violate('remesh:third-moment-changed', 're-mesh to a covering grid changed the third moment', m3b, m3a, at=at)
+                    violate('remesh:third-moment-changed' + swclass,
+                            're-mesh to a covering grid changed the third moment' +
+                            ('' if not swclass else ' (new grid has the SAME class width as the old one, %s: offset %.4g classes, %d -> %d classes)'
+                             % ('translated by a fraction of a class' if swclass.endswith('shifted') else 'class boundaries aligned', off, len(old_psd), post['bins'])),
+                            m3b, m3a, at=at)
         if t == 'adjust' and res is not None:
             extended = len(prev['psd']) > 0 and prev['psd'][-1] > 1
             if remeshed:
@@ -1127,8 +1196,11 @@ def shrink_disagreement(init, recipes):
 def gen_sequences(ctx, nseq, maxlen):
     seqs = [(i, r, 'fixed:' + name) for i, r, name in FIXED_CASES]
     for _ in range(nseq):
-        stream = ctx.rng.choices(['random', 'kwn-growth', 'kwn-dissolve', 'malformed', 'recording'], [32, 18, 14, 18, 18])[0]
+        stream = ctx.rng.choices(['random', 'kwn-growth', 'kwn-dissolve', 'malformed', 'recording', 'same-width'], [30, 17, 13, 17, 17, 6])[0]
         init = gen_init(ctx.rng, stream)
+        if stream == 'same-width':
+            seqs.append((init, *gen_same_width(ctx.rng, init)))
+            continue
         if ctx.rng.random() < 0.75:
             L = ctx.rng.randint(1, min(40, maxlen))
         else:
@@ -1159,6 +1231,25 @@ def gen_sequences(ctx, nseq, maxlen):
         recipes = interleave_moments(ctx.rng, recipes)
         seqs.append((init, recipes, stream))
     return seqs
+
+
+def gen_same_width(rng, init):
+    """supply a distribution with exactly empty margins (dense or sparse), re-mesh to a translated grid of the same class width,
+    query moments; repeated 1-3 times (the distribution is supplied afresh each time, so no rounding noise is re-meshed).
+    The range is at least 12 x the minimum (or starts at 0) so that max(10 cMin, cMax) does not take over for small shifts."""
+    if init['cMin'] > 0:
+        init['cMax'] = init['cMin'] * rng.choice([12, 20, 30, 100])
+    init['bins'] = max(init['bins'], rng.randint(2, 8))
+    init['maxBins'] = max(init['maxBins'], init['bins'])
+    recipes = []
+    for _ in range(rng.randint(1, 3)):
+        recipes.append([rng.choice(['setpsd', 'setpsd', 'update']), rng.choice(['interior', 'interior', 'interior-sparse', 'isolated']), rng.getrandbits(32)])
+        if rng.random() < 0.3:
+            recipes.append(rng.choice([['backup'], ['mom', 3, rng.getrandbits(32)], ['adaptive', rng.random() < 0.5]]))
+        recipes.append(gen_changesw(rng))
+        if rng.random() < 0.5:
+            recipes.append(['mom', rng.choice([0, 1, 2, 3]), rng.getrandbits(32)])
+    return recipes, 'same-width'
 
 
 def corr(ctx, nseq=None, oracle_only=False):
